@@ -128,20 +128,25 @@ Definition is_name_char (c : N) : bool := is_name_start c || is_digit c.
 
 Definition read_int_part (s : bytes) : option (bytes * bytes) :=
   match s with
-  | 48 :: r =>
-    match r with
-    | d :: _ => if is_digit d then None else Some ([48], r)
-    | [] => Some ([48], r)
-    end
-  | _ => let '(ds, r) := span is_digit s in
-         match ds with [] => None | _ => Some (ds, r) end
+  | c :: r =>
+    if c =? 48 then
+      match r with
+      | d :: _ => if is_digit d then None else Some ([48], r)
+      | [] => Some ([48], r)
+      end
+    else let '(ds, r') := span is_digit s in
+         match ds with [] => None | _ => Some (ds, r') end
+  | [] => None
   end.
 
 Definition read_frac_part (s : bytes) : option (bytes * bool * bytes) :=
   match s with
-  | 46 :: r => let '(ds, r') := span is_digit r in
-               match ds with [] => None | _ => Some (46 :: ds, true, r') end
-  | _ => Some ([], false, s)
+  | c :: r =>
+    if c =? 46 then
+      let '(ds, r') := span is_digit r in
+      match ds with [] => None | _ => Some (46 :: ds, true, r') end
+    else Some ([], false, s)
+  | [] => Some ([], false, s)
   end.
 
 Definition read_exp_part (s : bytes) : option (bytes * bool * bytes) :=
@@ -160,7 +165,7 @@ Definition read_exp_part (s : bytes) : option (bytes * bool * bytes) :=
 
 (* lexeme, isFloat, rest *)
 Definition read_number (s : bytes) : option (bytes * bool * bytes) :=
-  let '(sign, s1) := match s with 45 :: r => ([45], r) | _ => ([], s) end in
+  let '(sign, s1) := match s with c :: r => if c =? 45 then ([45], r) else ([], s) | [] => ([], s) end in
   match read_int_part s1 with
   | None => None
   | Some (ip, s2) =>
